@@ -158,6 +158,16 @@ fn binary(x: u64, y: u64) -> Result<(), String> {
     if (a == b) != (x == y) {
         return Err("C18 equality".into());
     }
+    // collection from iterators is insertion (set union), also when squares / boards repeat
+    let want = zip(|p, q| p || q);
+    let from_pos: BitBoard = a.iter().chain(b.iter()).chain(a.iter()).collect();
+    if from_pos.to_u64() != want {
+        return Err(format!("C18 collecting the squares of {x:#018x} then {y:#018x} then {x:#018x} again gives {:#018x}, the set union is {want:#018x}", from_pos.to_u64()));
+    }
+    let from_boards: BitBoard = [a, b, a, b].into_iter().collect();
+    if from_boards.to_u64() != want {
+        return Err(format!("C18 collecting the boards {x:#018x}, {y:#018x} twice gives {:#018x}, the set union is {want:#018x}", from_boards.to_u64()));
+    }
     Ok(())
 }
 
